@@ -550,14 +550,13 @@ func ZZVerifC03() {
 	r.Finish()
 }
 
-// placeholders until the C12 file is added
-type z12Scenario struct{ Name string }
-
-func z12Body(sc z12Scenario) func() { return func() {} }
-
 func ZZVerifStore() {
 	switch gos.Getenv("VERIF_ID") {
-	case "C03", "store", "":
+	case "C12":
+		ZZVerifC12()
+	case "C04":
+		ZZVerifC04()
+	default:
 		ZZVerifC03()
 	}
 }
